@@ -8,7 +8,7 @@ from ..monitors import EscapeMonitor, DeliveryMonitor, WireMonitor
 from ..evidence import graph_evidence
 from .c01 import hexn, DEVS
 
-from .c14 import run_adaptive  # noqa: F401
+from .c14 import run_adaptive, run_slow_negotiation  # noqa: F401
 
 PROP = 'C04'
 
@@ -48,6 +48,8 @@ def scenarios(tier):
     out.append(_scen('termA|termB-d1', {'A': [term], 'B': [term]}, dev_bound=1, weight=10))
     # adaptive segment sizing (shared with C14): every assignment of fast/slow acknowledgement
     # delays, peer MRUs above and below the controller's floor; all wire rules of this property apply
+    out.append(dict(name='slow-negotiation', kind='enum', runner='run_slow_negotiation',
+                    params=dict(name='slow-negotiation', prop=PROP), weight=10))
     out.append(dict(name='adaptive-sizing', kind='enum', runner='run_adaptive',
                     params=dict(name='adaptive-sizing', prop=PROP, thorough=(tier == 'thorough')), weight=20))
     if tier == 'thorough':
